@@ -5,13 +5,14 @@ for pattern.rng; the recorded primitive draws are replayed through the model ins
 of generator requests are compared.  Oracle (independent, plain Python): reset / re-seed / fresh-instance equality,
 isolation from other patterns and from the global generator, ranges and supports, weighted frequencies (6 sigma)."""
 from common import *
-import math
+import math, subprocess
+from concurrent.futures import ThreadPoolExecutor
 
 PROP = "C11"
 META = {
  "engine": "P-patterns (stochastic sub-engine Pat/Chance.v)",
- "text": "Coq theorems (Props/C11.v, closed under the global context) over an executable model of PWhite, PBrown, PCoin, PFlipFlop, PSkip, PRandomWalk, PChoice, PSample, PShuffle, PShuffleInput, PSwitchOne, PMarkov and util.normalize/windex, in which the random generator is an oracle (Section variables r_unit, r_below, r_seed): reset and re-seed rewind state and stream to those of a fresh instance, a pattern's outputs in a world of several patterns and the global generator under ANY schedule equal its outputs alone (isolation; hence equal instances agree), and for ALL generator behaviours and all steps the outputs stay in range / support (noise in [min,max], finite length exact, brownian steps bounded and clamped, walk moves between min and max, choices from the values, samples without replacement, shuffles permutations, skips only rests, Markov only learned transitions); the weighted index i is chosen exactly when cum(i) <= u*W < cum(i+1), an interval of length w_i/W. The model is tied to the repository on every run: each script (next/reset/seed interleavings) is executed on the real class with a recording random.Random substituted for pattern.rng, the recorded draws are replayed through the model inside Coq (vm_compute) and outputs and generator requests are compared exactly; an independent oracle checks reproducibility, isolation (world schedules, random.getstate()), supports and frequencies on the implementation directly.",
- "note": "Trusted / modelled-not-verified: the Mersenne Twister and random.Random's derived methods (uniform, randint, choice, shuffle reduce to random() and _randbelow(n) as in CPython 3.12); its uniformity (frequencies are a 6-sigma statistical validation, the theorem is the interval-length fact). Floats are exact rationals in the model; float outputs (PWhite/PBrown float mode) are compared by a proven-sound enclosure |impl - model| <= eps, weighted choices whose draw lies within 2^-30 of a boundary are discarded. PArpeggiator(RANDOM), PRandomExponential, PRandomImpulseSequence, regular PCoin/PSkip are covered by the oracle only (no Coq model). seed(None) draws the new seed from the global generator by design and is out of scope.",
+ "text": "Coq theorems (Props/C11.v, closed under the global context) over an executable model of PWhite, PBrown, PCoin, PFlipFlop, PSkip, PRandomWalk, PChoice, PSample, PShuffle, PShuffleInput, PSwitchOne, PMarkov and util.normalize/windex, in which the random generator is an oracle (Section variables r_unit, r_below, r_seed): reset and re-seed rewind state and stream to those of a fresh instance, a pattern's outputs in a world of several patterns and the global generator under ANY schedule equal its outputs alone (isolation; hence equal instances agree), and for ALL generator behaviours and all steps the outputs stay in range / support (noise in [min,max], finite length exact, brownian steps bounded and clamped, walk moves between min and max, choices from the values, samples without replacement, shuffles permutations, skips only rests, Markov only learned transitions); the weighted index i is chosen exactly when cum(i) <= u*W < cum(i+1), an interval of length w_i/W. The model is tied to the repository on every run: each script (next/reset/seed interleavings) is executed on the real class with a recording random.Random substituted for pattern.rng, the recorded draws are replayed through the model inside Coq (vm_compute) and outputs and generator requests are compared exactly; an independent oracle checks reproducibility, isolation (world schedules, random.getstate()), supports and frequencies on the implementation directly. Copies used side by side (Pat/ChanceCopy.v): for every machine - a stochastic pattern nested in deterministic wrappers included - and every interleaving of next/reset/seed on an original and its copies, copy() and global generator calls, a member no copy overwrites produces what it produces alone (C11_copy_isolation), a seeded original equals any other instance with the same arguments and seed whatever happens to its copies, and a copy continues from its source's state; families are run on the implementation with a recording generator that deepcopy duplicates, judged against fresh solo instances and replayed through the model. Seed values of every kind random.seed accepts (Pat/ChanceSeed.v: int, negative, huge, bool, float, str, bytes, bytearray reduced by seed_key as CPython does, SHA-512 as data): reproducibility theorems for every kind, same key => same sequence, independence of the surrounding world (the image of the interpreter process); the same scripts are run in four interpreters with different PYTHONHASHSEED and must agree, the model's key is compared with Python's and with the implementation (a value and its int key give the same outputs), and draws recorded in one interpreter are replayed through the model against the outputs of another.",
+ "note": "Trusted / modelled-not-verified: the Mersenne Twister and random.Random's derived methods (uniform, randint, choice, shuffle reduce to random() and _randbelow(n) as in CPython 3.12); its uniformity (frequencies are a 6-sigma statistical validation, the theorem is the interval-length fact). Floats are exact rationals in the model; float outputs (PWhite/PBrown float mode) are compared by a proven-sound enclosure |impl - model| <= eps, weighted choices whose draw lies within 2^-30 of a boundary are discarded. PArpeggiator(RANDOM), PRandomExponential, PRandomImpulseSequence, regular PCoin/PSkip are covered by the oracle only (no Coq model). seed(None) draws the new seed from the global generator by design and is out of scope. Object identity of a copy and the interpreter's string-hash salt have no image in the model (a copy is a key of the family world; no salt occurs in seed_key): covered by the oracle and the cross-process correspondence; SHA-512 enters as data computed by hashlib.",
 }
 
 TWO53 = 9007199254740992
@@ -1008,6 +1009,464 @@ def run_util(run, n):
 
 
 # ---------------------------------------------------------------------------------------------------
+# copies of stochastic patterns used side by side (model Pat/ChanceCopy.v)
+# ---------------------------------------------------------------------------------------------------
+FAM_HEADER = HEADER.replace("Pat.Chance.", "Pat.Chance Pat.ChanceCopy.")
+INT_OUT = {"PCoin", "PFlipFlop", "PSkip", "PRandomWalk", "PChoice", "PShuffle", "PShuffleInput", "PSwitchOne",
+           "PMarkov", "PWhite", "PBrown", "PRandomImpulseSequence", "PArpeggiator", "PCoinRegular", "PSkipRegular"}
+
+
+def gen_family(rng, cls):
+    """an original (seeded; 40 % nested inside a deterministic wrapper) and up to three copies taken at different points,
+    driven side by side: next / reset() / seed() on every member in bursts, global generator calls in between"""
+    spec = {"cls": real_cls(cls), "args": gen_spec(rng, cls)}
+    wrap = None
+    r = rng.random()
+    if r < 0.2 and cls in INT_OUT:
+        wrap = ["add", rng.randint(-5, 9)]
+    elif r < 0.4:
+        wrap = ["stutter", rng.randint(1, 3)]
+    seed = rng.randrange(2 ** 31)
+    seeds = [seed, rng.randrange(2 ** 31)]
+    sched, members = [], [0]
+    hist = {0: []}
+    split = {0: 0}
+    for _ in range(rng.randint(0, 5)):
+        sched.append(["p", 0, "next"]); hist[0].append("next")
+    for step in range(rng.randint(6, 14)):
+        k = rng.random()
+        if (k < 0.22 or step == 0) and len(members) < 4:
+            src, dst = rng.choice(members), len(members)
+            sched.append(["copy", src, dst])
+            members.append(dst)
+            hist[dst] = list(hist[src])
+            split[dst] = sum(1 for o in hist[dst] if o == "next")
+        elif k < 0.34:
+            sched.append(rng.choice([["gunit"], ["gbelow", rng.randint(1, 100)], ["gseed", rng.randrange(1000)]]))
+        else:
+            i = rng.choice(members)
+            k2 = rng.random()
+            ops = ["reset"] if k2 < 0.14 else [["seed", rng.choice(seeds)]] if k2 < 0.26 else \
+                [["seed", rng.choice(seeds)], "reset"] if k2 < 0.32 else ["next"] * rng.randint(1, 4)
+            for o in ops:
+                sched.append(["p", i, o]); hist[i].append(o)
+    for i in members:                                    # everybody is drawn from at the end
+        for _ in range(rng.randint(1, 4)):
+            sched.append(["p", i, "next"]); hist[i].append("next")
+    return {"kind": "family", "gen": cls, "spec": spec, "wrap": wrap, "seed": seed, "record": cls in MODELLED,
+            "sched": sched, "solo": {str(i): hist[i] for i in members}, "split": split, "members": members}
+
+
+def fam_snippet(c):
+    lines = ["import isobar as iso, random", "s = %s.seed(%d)" % (ctor(c["spec"]), c["seed"])]
+    w = c["wrap"]
+    lines.append("p0 = %s" % ("s" if not w else "s + %d" % w[1] if w[0] == "add" else "iso.PStutter(s, %d)" % w[1]))
+    inner = lambda i: "p%d" % i if not w else "p%d.a" % i if w[0] == "add" else "p%d.pattern" % i
+    for op in c["sched"]:
+        if op[0] == "p":
+            o = op[2]
+            lines.append("print(%d, next(p%d))" % (op[1], op[1]) if o == "next" else "p%d.reset()" % op[1] if o == "reset"
+                         else "%s.seed(%d)" % (inner(op[1]), o[1]))
+        elif op[0] == "copy":
+            lines.append("p%d = p%d.copy()" % (op[2], op[1]))
+        elif op[0] == "gunit":
+            lines.append("random.random()")
+        elif op[0] == "gbelow":
+            lines.append("random.randrange(%d)" % op[1])
+        else:
+            lines.append("random.seed(%d)" % op[1])
+    return "\n".join(lines)
+
+
+def family_term(c, r):
+    """Coq boolean term: the family of Pat/ChanceCopy.v replays the recorded draws (every member's generator state is
+    the rest of the draws recorded for its epoch; a copy inherits its source's) and must produce every member's
+    events and request logs; None if the case has no image in the model"""
+    m, eps = machine_term(c["spec"])
+    if m is None:
+        return None
+    w = c["wrap"]
+    if w and w[0] == "add":
+        m = "(mapm replay _ (add_k %s) %s)" % (zlit(w[1]), m)
+    elif w:
+        m = "(stutterm replay _ %s %s)" % (zlit(w[1]), m)
+    as_q = eps is not None
+    ops, exp = [], []
+    e = 0
+    cur = {0: 0}                                         # member -> global epoch it is in
+    local = {0: [0]}                                     # member -> global epochs of its local epochs, in order
+    pos = {i: 0 for i in c["members"]}
+    for op in c["sched"]:
+        if op[0] == "p":
+            i, o = op[1], op[2]
+            if o == "next":
+                ops.append("CP %d Next" % i)
+                t = res_term(r["outs"][str(i)][pos[i]], as_q)
+                pos[i] += 1
+                if t is None:
+                    return None
+                exp.append(t)
+            else:
+                e += 1
+                cur[i] = e
+                local[i].append(e)
+                ops.append("CP %d (Seed %d)" % (i, e))
+                if o == "reset":
+                    ops.append("CP %d Reset" % i)
+        elif op[0] == "copy":
+            ops.append("CCopy %d %d" % (op[1], op[2]))
+            cur[op[2]] = cur[op[1]]
+            local[op[2]] = [cur[op[1]]]
+        elif op[0] == "gunit":
+            ops.append("CGUnit")
+        elif op[0] == "gbelow":
+            ops.append("CGBelow %d" % op[1])
+        else:
+            ops.append("CGSeed %d" % op[1])
+    draws = [[] for _ in range(e + 1)]
+    reqs = []
+    for i in c["members"]:
+        eps_i = r["epochs"].get(str(i))
+        if eps_i is None or len(eps_i) != len(local[i]):
+            return "false"                               # a member re-seeded more / less often than reset()/seed() were called
+        for g, ep in zip(local[i], eps_i):
+            res = [k for _, k in ep]
+            n = min(len(res), len(draws[g]))
+            if res[:n] != draws[g][:n]:
+                return "false"                           # members sharing an epoch saw different streams
+            if len(res) > len(draws[g]):
+                draws[g] = res
+            reqs.append("(%d%%nat, %d, %s)" % (i, g, zlist([q for q, _ in ep])))
+    args = "%s %s %s %s %s %s" % (m, lst([zlist(d) for d in draws]), lst(reqs), lst(["%d%%nat" % i for i in c["members"]]),
+                                  lst(ops), lst(exp))
+    if eps is not None:
+        return "check_family_eps %s %s" % (qlit(eps / 2 ** 40), args)
+    return "check_family " + args
+
+
+def run_families(run, per_cls):
+    rng = run.rng
+    cases = []
+    for cls in MODELLED + ORACLE_ONLY:
+        cases += [gen_family(rng, cls) for _ in range(per_cls if cls in MODELLED else max(1, per_cls // 2))]
+    results = shard(run, [{k: v for k, v in c.items() if k not in ("split", "members", "gen")} for c in cases])
+    terms, meta = [], []
+    for c, r in zip(cases, results):
+        run.count(len(c["sched"]))
+        run.dist("family." + c["gen"])
+        run.dist("family.wrap.%s" % (c["wrap"][0] if c["wrap"] else "none"))
+        run.dist("family.%d-members" % len(c["members"]))
+        if "driver_exception" in r:
+            run.discard("family whose constructor raises")
+            continue
+        site = c["spec"]["cls"] + ("(regular)" if c["spec"]["args"].get("regular") else "")
+        hit = False
+
+        def rep(kind, detail):
+            sig = {"kind": kind, "site": site}
+            if c["spec"]["args"].get("every"):
+                sig["every"] = True                      # PRandomImpulseSequence.every(n, action): see known_findings.d/C11.json
+            run.violation(sig, {
+                "case": {"class": c["spec"]["cls"], "args": c["spec"]["args"], "seed": c["seed"], "wrap": c["wrap"],
+                         "schedule": c["sched"]},
+                "observed": detail,
+                "oracle": "every member of a family (a seeded original and its copies) must produce what a fresh instance with the "
+                          "same arguments and seed produces when driven alone by that member's own history (the source's history "
+                          "up to the copy, then the member's own operations)",
+                "python": fam_snippet(c)})
+        run.nontrivial(json.dumps([c["spec"], c["seed"], c["wrap"], c["sched"]], sort_keys=True))
+        for t in r["touched"][:1]:
+            hit = True
+            rep("global-generator-touched", "operation %d of the schedule (%r) changed random.getstate()" % (t, c["sched"][t]))
+        for i in c["members"]:
+            got = r["outs"][str(i)]
+            want = r["solo"][str(i)][c["split"][i]:]
+            run.cov["oracle_evaluations"] += len(got)
+            if got != want:
+                hit = True
+                j = next((j for j in range(min(len(got), len(want))) if got[j] != want[j]), min(len(got), len(want)))
+                who = "the original" if i == 0 else "copy %d" % i
+                rep("copy-not-isolated", "output %d of %s (member %d) is %r; a fresh instance with the same arguments and seed, driven alone "
+                    "by this member's history, gives %r (member: %r, alone: %r)" % (j, who, i, got[j] if j < len(got) else None,
+                                                                                  want[j] if j < len(want) else None, got[:12], want[:12]))
+                break
+        if not c["record"]:
+            continue
+        fake = {"epochs": [ep for eps_i in r["epochs"].values() for ep in (eps_i or [])]}
+        if c["gen"] in ("PChoice", "PSample") and not weighted_margin_ok(c, fake):
+            run.discard("weighted draw within 2^-30 of a cumulative boundary")
+            continue
+        if c["gen"] == "PWhite" and type(c["spec"]["args"]["min"]) is int and not int_trunc_margin_ok(c, fake):
+            run.discard("PWhite int: exact value within 2^-30 of an integer")
+            continue
+        t = family_term(c, r)
+        if t is None:
+            run.discard("implementation value outside the model's value universe")
+            continue
+        terms.append(t)
+        meta.append((c, r, hit))
+    failing = run.coq_failing(FAM_HEADER, terms, chunk=100)
+    run.cov["traces_validated_against_impl"] += len(terms) - len(failing)
+    run.cov["families_validated_against_model"] = len(terms) - len(failing)
+    for i in failing:
+        c, r, hit = meta[i]
+        if hit:
+            continue
+        run.violation({"kind": "correspondence", "site": "copy:" + c["spec"]["cls"]}, {
+            "broken": "correspondence Pat/ChanceCopy.v (a copy owns a copy of the generator state) vs Pattern.copy() on %s: the "
+                      "C11_copy_* theorems of Props/C11.v no longer describe this code" % c["spec"]["cls"],
+            "case": {"class": c["spec"]["cls"], "args": c["spec"]["args"], "seed": c["seed"], "wrap": c["wrap"], "schedule": c["sched"]},
+            "observed": {"outs": r["outs"], "draws": r["epochs"]}, "python": fam_snippet(c), "coq_term": terms[i][:3000]},
+            found_input=True)
+
+
+# ---------------------------------------------------------------------------------------------------
+# seed values of every kind, and reproducibility ACROSS interpreter processes (model Pat/ChanceSeed.v)
+# ---------------------------------------------------------------------------------------------------
+SEED_HEADER = HEADER.replace("Pat.Chance.", "Pat.Chance Pat.ChanceSeed.")
+HASH_SEEDS = ["0", "1", "31337"]                         # + one drawn from run.rng per run
+
+
+def impl_hashseed(run, payload, hashseed, timeout=1800):
+    """run.impl on c11_impl.py, but in an interpreter whose string-hash salt is `hashseed` (common.env_for_impl pins 0)"""
+    e = env_for_impl()
+    e["PYTHONHASHSEED"] = hashseed
+    pth = os.path.join(VERIF, "harness", "impl", "c11_impl.py")
+    r = subprocess.run([PY, pth], input=json.dumps(payload), env=e, capture_output=True, text=True, timeout=timeout, cwd=run.work)
+    if r.returncode != 0:
+        raise CheckError("implementation driver c11_impl failed under PYTHONHASHSEED=%s (rc %d):\n%s" % (hashseed, r.returncode, r.stderr[-3000:]))
+    return json.loads(r.stdout)
+
+
+def gen_seedv(rng):
+    k = rng.random()
+    if k < 0.2:
+        return {"k": "int", "v": rng.choice([0, 1, 42, rng.randrange(2 ** 31), rng.randrange(2 ** 63)])}
+    if k < 0.3:
+        return {"k": "int", "v": -rng.choice([1, 3, 42, rng.randrange(1, 2 ** 31)])}
+    if k < 0.4:
+        return {"k": "int", "v": rng.choice([1, -1]) * (2 ** rng.randint(64, 200) + rng.randrange(2 ** 40))}
+    if k < 0.45:
+        return {"k": "bool", "v": rng.random() < 0.5}
+    if k < 0.6:
+        f = rng.choice([0.25, -0.785, 3.0, 1e300, 0.1, -2.5e-7, 0.0, 123456.789, float(rng.randrange(2 ** 40)) / 1024,
+                        -rng.random(), 5e-324, 1.7976931348623157e308])
+        return {"k": "float", "v": list(f.as_integer_ratio())}
+    if k < 0.8:
+        return {"k": "str", "v": rng.choice(["verse", "chorus-2", "", "a", "bridge", "ü♪ intro", "section %d" % rng.randrange(100),
+                                             "".join(rng.choice("abcxyz019 _-") for _ in range(rng.randint(1, 24)))])}
+    b = rng.choice([b"bridge", b"", b"\x00", b"\xff\xfe\x00coda", bytes(rng.randrange(256) for _ in range(rng.randint(1, 20)))])
+    return {"k": "bytes" if k < 0.92 else "bytearray", "v": list(b)}
+
+
+def seedv_value(j):
+    k, v = j["k"], j["v"]
+    return v[0] / v[1] if k == "float" else bytes(v) if k == "bytes" else bytearray(v) if k == "bytearray" else bool(v) if k == "bool" else v
+
+
+def seedv_digest(j):
+    """sha512 of the bytes of a str / bytes / bytearray seed (data for the model's Section variable sha)"""
+    import hashlib
+    v = seedv_value(j)
+    if isinstance(v, str):
+        v = v.encode()
+    return list(hashlib.sha512(bytes(v)).digest()) if isinstance(v, (bytes, bytearray)) else []
+
+
+def seedv_key(j):
+    """the non-negative int from which random.seed initialises the generator (CPython 3.12, version 2), computed
+    here without random.seed: abs for ints, the unsigned 64-bit image of hash() for floats (hash of a float is not
+    salted), int.from_bytes(a + sha512(a)) for str / bytes / bytearray"""
+    v = seedv_value(j)
+    if isinstance(v, (bool, int)):
+        return abs(int(v))
+    if isinstance(v, float):
+        n, d = v.as_integer_ratio()
+        P = 2 ** 61 - 1
+        h = (abs(n) % P) * pow(d, P - 2, P) % P
+        h = -h if n < 0 else h
+        h = -2 if h == -1 else h
+        return h % 2 ** 64
+    b = v.encode() if isinstance(v, str) else bytes(v)
+    return int.from_bytes(b + bytes(seedv_digest(j)), "big")
+
+
+def seedv_coq(j):
+    k, v = j["k"], j["v"]
+    if k == "int":
+        return "(SInt %s)" % zlit(v)
+    if k == "bool":
+        return "(SBool %s)" % ("true" if v else "false")
+    if k == "float":
+        return "(SFloat %s %d)" % (zlit(v[0]), v[1].bit_length() - 1)
+    b = list(v.encode()) if k == "str" else list(v)
+    return "(%s %s)" % ({"str": "SStr", "bytes": "SBytes", "bytearray": "SBytearray"}[k], zlist(b))
+
+
+def seedv_repr(j):
+    return repr(seedv_value(j))
+
+
+def gen_xproc(rng, cls):
+    svs = [gen_seedv(rng) for _ in range(3)]
+    spec = {"cls": real_cls(cls), "args": gen_spec(rng, cls)}
+    ops = []
+    for _ in range(rng.randint(1, 3)):
+        ops += ["next"] * rng.randint(1, 8)
+        r = rng.random()
+        if r < 0.35:
+            ops.append("reset")
+        elif r < 0.7:
+            ops += [["seedv", rng.choice(svs)], "reset"]
+        else:
+            ops.append(["seedv", rng.choice(svs)])
+    ops += ["next"] * rng.randint(1, 8)
+    return {"kind": "script", "gen": cls, "spec": spec, "seed": 0, "seedv": svs[0], "ops": ops,
+            "refs": {"seeds": [], "n": sum(1 for o in ops if o == "next")},
+            "refsv": [[sv, seedv_key(sv)] for sv in svs], "svs": svs}
+
+
+def xproc_snippet(c):
+    lines = ["import isobar as iso", "p = %s.seed(%s)" % (ctor(c["spec"]), seedv_repr(c["seedv"])), "out = []"]
+    for o in c["ops"]:
+        lines.append("out.append(next(p, 'StopIteration'))" if o == "next" else "p.reset()" if o == "reset"
+                     else "p.seed(%s)" % seedv_repr(o[1]))
+    lines.append("print(out)   # the same list in every interpreter: run it with PYTHONHASHSEED=1 and PYTHONHASHSEED=2")
+    return "\n".join(lines)
+
+
+def run_xproc(run, per_cls):
+    rng = run.rng
+    cases = []
+    for cls in MODELLED + ORACLE_ONLY:
+        cases += [gen_xproc(rng, cls) for _ in range(per_cls)]
+    salts = HASH_SEEDS + [str(rng.randrange(2, 2 ** 32 - 1))]
+    payload = {"cases": [{k: v for k, v in c.items() if k not in ("svs", "gen")} for c in cases]}
+    halves = [cases[0::2], cases[1::2]]
+    jobs = [(h, s) for s in salts for h in (0, 1)]
+    with ThreadPoolExecutor(max_workers=8) as ex:
+        outs = list(ex.map(lambda hs: impl_hashseed(run, {"cases": [{k: v for k, v in c.items() if k not in ("svs", "gen")}
+                                                                    for c in halves[hs[0]]]}, hs[1])["results"], jobs))
+    per_salt = {}
+    for (h, s), o in zip(jobs, outs):
+        per_salt.setdefault(s, {}).update({id(c): r for c, r in zip(halves[h], o)})
+    terms, meta = [], []
+    kterms, kmeta = [], []
+    for c in cases:
+        run.count(len(c["ops"]) * len(salts))
+        run.dist("xproc." + c["gen"])
+        for sv in c["svs"]:
+            run.dist("xproc.seed-kind.%s" % (sv["k"] if sv["k"] != "int" else "int-negative" if sv["v"] < 0 else
+                                             "int-huge" if sv["v"] >= 2 ** 64 else "int"))
+        rs = [per_salt[s][id(c)] for s in salts]
+        if any("driver_exception" in r for r in rs):
+            if not all("driver_exception" in r for r in rs):
+                run.violation({"kind": "not-reproducible-across-processes", "site": c["spec"]["cls"]}, {
+                    "case": {"class": c["spec"]["cls"], "args": c["spec"]["args"], "seed": seedv_repr(c["seedv"]), "ops": c["ops"]},
+                    "observed": "the constructor raises under some PYTHONHASHSEED only: %r" % [r.get("driver_exception") for r in rs],
+                    "python": xproc_snippet(c)})
+            else:
+                run.discard("xproc: constructor raises")
+            continue
+        site = c["spec"]["cls"] + ("(regular)" if c["spec"]["args"].get("regular") else "")
+
+        def rep(kind, detail):
+            run.violation({"kind": kind, "site": site}, {
+                "case": {"class": c["spec"]["cls"], "args": c["spec"]["args"], "seed": seedv_repr(c["seedv"]),
+                         "ops": [o if isinstance(o, str) else ["seed", seedv_repr(o[1])] for o in c["ops"]], "PYTHONHASHSEED": salts},
+                "observed": detail,
+                "oracle": "a pattern seeded with s produces the same sequence as any other instance with the same arguments and "
+                          "seed: in this interpreter and in any other (the interpreters differ only in PYTHONHASHSEED)",
+                "python": xproc_snippet(c)})
+        run.nontrivial(json.dumps([c["spec"], c["seedv"], c["ops"]], sort_keys=True))
+        hit = False
+        ref = rs[0]["events"]
+        run.cov["oracle_evaluations"] += len(ref) * len(salts)
+        for s, r in zip(salts[1:], rs[1:]):
+            if r["events"] != ref:
+                hit = True
+                j = next((j for j in range(min(len(ref), len(r["events"]))) if ref[j] != r["events"][j]), None)
+                rep("not-reproducible-across-processes", "output %r differs between two runs of the same program: PYTHONHASHSEED=%s gives %r, "
+                    "PYTHONHASHSEED=%s gives %r" % (j, salts[0], ref[:12], s, r["events"][:12]))
+                break
+        for s, r in zip(salts, rs):
+            # within one interpreter: a fresh instance seeded with the same value, and one seeded with its int key
+            for (sv, key), (a, b) in zip(c["refsv"], r["refsv"]):
+                if a != b and not hit:
+                    hit = True
+                    rep("seed-value-not-its-key", "under PYTHONHASHSEED=%s a fresh instance seeded with %s gives %r, one seeded with the int "
+                        "%d (what random.seed reduces that value to) gives %r" % (s, seedv_repr(sv), a[:10], key, b[:10]))
+            if r["plain"] != r["events"] and not hit:
+                hit = True
+                rep("recorder-not-transparent", "PYTHONHASHSEED=%s: %r vs %r" % (s, r["events"][:12], r["plain"][:12]))
+            # segments after reset() / seed(v);reset() replay a fresh instance seeded with that value
+            cur, clean, k, seg = c["seedv"], True, 0, []
+            stateless = c["spec"]["cls"] in STATELESS and not c["spec"]["args"].get("regular")
+
+            def close():
+                if clean and seg and not hit:
+                    a = dict((json.dumps(sv, sort_keys=True), x[0]) for (sv, _), x in zip(c["refsv"], r["refsv"]))[json.dumps(cur, sort_keys=True)]
+                    return a[:len(seg)] != seg
+                return False
+            for o in c["ops"]:
+                if o == "next":
+                    seg.append(r["events"][k]); k += 1
+                    continue
+                if close():
+                    hit = True
+                    rep("not-reproducible", "PYTHONHASHSEED=%s: after reset()/seed(%s) the outputs %r are not those of a fresh instance with "
+                        "that seed" % (s, seedv_repr(cur), seg[:10]))
+                seg = []
+                if o == "reset":
+                    clean = True
+                else:
+                    cur, clean = o[1], stateless
+            if close():
+                hit = True
+                rep("not-reproducible", "PYTHONHASHSEED=%s: after reset()/seed(%s) the outputs %r are not those of a fresh instance with that "
+                    "seed" % (s, seedv_repr(cur), seg[:10]))
+        # model: (1) the key of every seed value, (2) the draws recorded in ONE interpreter replayed against the outputs of ANOTHER
+        for sv, key in c["refsv"]:
+            dg = seedv_digest(sv)
+            kterms.append("Z.eqb (seed_key (fun _ => %s) %s) %s" % (zlist(dg), seedv_coq(sv), zlit(key)))
+            kmeta.append((c, sv, key))
+        if c["gen"] not in MODELLED:
+            continue
+        if c["gen"] in ("PChoice", "PSample") and not weighted_margin_ok(c, rs[0]):
+            run.discard("weighted draw within 2^-30 of a cumulative boundary")
+            continue
+        if c["gen"] == "PWhite" and type(c["spec"]["args"]["min"]) is int and not int_trunc_margin_ok(c, rs[0]):
+            run.discard("PWhite int: exact value within 2^-30 of an integer")
+            continue
+        for a, b in ((0, 1), (2, 3)):
+            t = script_term(c, {"events": rs[b]["events"], "epochs": rs[a]["epochs"]})
+            if t is None:
+                run.discard("implementation value outside the model's value universe")
+                continue
+            terms.append(t)
+            meta.append((c, salts[a], salts[b], hit))
+    failing = run.coq_failing(HEADER, terms, chunk=100)
+    run.cov["traces_validated_against_impl"] += len(terms) - len(failing)
+    run.cov["cross_process_replays_validated"] = len(terms) - len(failing)
+    for i in failing:
+        c, sa, sb, hit = meta[i]
+        if hit:
+            continue
+        run.violation({"kind": "correspondence", "site": "cross-process:" + c["spec"]["cls"]}, {
+            "broken": "cross-process correspondence: the draws recorded under PYTHONHASHSEED=%s, replayed through the model, do not give the "
+                      "outputs observed under PYTHONHASHSEED=%s (the sequence is not a function of arguments and seed only)" % (sa, sb),
+            "case": {"class": c["spec"]["cls"], "args": c["spec"]["args"], "seed": seedv_repr(c["seedv"]), "ops": c["ops"]},
+            "python": xproc_snippet(c), "coq_term": terms[i][:3000]}, found_input=True)
+    kfail = run.coq_failing(SEED_HEADER, kterms, chunk=400)
+    run.cov["seed_keys_validated"] = len(kterms) - len(kfail)
+    for i in kfail:
+        c, sv, key = kmeta[i]
+        run.violation({"kind": "correspondence", "site": "seed_key:" + sv["k"]}, {
+            "broken": "Pat/ChanceSeed.v seed_key disagrees with the reduction of random.seed for the seed value %s (expected key %d)" % (seedv_repr(sv), key),
+            "case": {"seed": seedv_repr(sv)}, "coq_term": kterms[i][:2000]}, found_input=True)
+
+
+# ---------------------------------------------------------------------------------------------------
 def check(run):
     quick = run.tier == "quick"
     per_cls = 110 if quick else 1500
@@ -1023,6 +1482,8 @@ def check(run):
     run_worlds(run, 120 if quick else 1500)
     run_util(run, 300 if quick else 3000)
     run_freq(run, 10000 if quick else 100000)
+    run_families(run, 14 if quick else 200)
+    run_xproc(run, 6 if quick else 80)
     run.cov["exhaustive"] = False
     run.cov["rule"] = ("one case = one script (class, arguments, seed, sequence of next/reset/seed operations) run on the real class with a "
                        "recording generator and replayed through the Coq model; or one world schedule (2-5 patterns + global generator "
